@@ -18,9 +18,9 @@ CHECKS = {
     "C03": ("fault enumeration in the TLC model (every abort point is a state) + trace validation of programs ending in a rejection", TWIN_NOTE, "7 C03"),
     "C04": ("TLC model checking + TLC trace validation over argument shapes and geometries up to 16x24", TWIN_NOTE, "7 C04"),
     "C05": ("TLC model checking with exact rationals + TLC trace validation of logged fractions against exact mixing", TWIN_NOTE, "7 C05"),
-    "C06": ("TLC exhaustive check of the split contract + trace validation of partition_volume calls and split transfers", CALL_NOTE, "7 C06"),
+    "C06": ("TLC exhaustive check of the split contract, TLAPS lemma SplitValid (valid, minimal and multi-dispense rule for every volume and max_volume), TLC model with the worklist configuration as state + trace validation of partition_volume calls and split transfers incl. configuration changes", CALL_NOTE, "7 C06"),
     "C07": ("TLC model checking of the plan contract + trace validation of transfers incl. all permutations", TWIN_NOTE, "7 C07"),
-    "C08": ("TLC exhaustive numbering lemmas + trace validation of every well of every geometry", CALL_NOTE, "7 C08"),
+    "C08": ("TLC exhaustive numbering lemmas, TLAPS lemma PosInjective (all sizes) + trace validation of every well of every geometry", CALL_NOTE, "7 C08"),
     "C09": ("TLC check of the record grammar (Render/validity) + trace validation of every emitter's records", TWIN_NOTE, "7 C09"),
     "C10": ("TLC exhaustive mask lemmas + trace validation of tip arguments through every entry point", CALL_NOTE, "7 C10"),
     "C11": ("TLC model checking of history step properties + trace validation of histories", TWIN_NOTE, "7 C11"),
